@@ -127,8 +127,9 @@ Definition identity (cf : config) (rq : request) : (Z * bool) * result user :=
   let ipp := real_ip (rq_peer rq) (rq_peer_trusted rq) (rq_hops rq) in
   (ipp, authenticate (cf_clients cf) (peer_certs (snd ipp) (rq_tls rq) (rq_hdr rq))).
 
-Definition handle (cf : config) (rq : request) : outcome :=
-  match snd (identity cf rq) with
+(* what the views behind the authentication middleware do with the middleware's verdict *)
+Definition dispatch (cf : config) (ru : result user) (rq : request) : outcome :=
+  match ru with
   | Err c => Status c
   | Panic _ => Status 500
   | Ok u =>
@@ -139,6 +140,9 @@ Definition handle (cf : config) (rq : request) : outcome :=
       | EpHome => Status 200
       end
   end.
+
+Definition handle (cf : config) (rq : request) : outcome :=
+  dispatch cf (snd (identity cf rq)) rq.
 
 (* ------------------------------------------------------------------ specification vocabulary *)
 (* the key a name resolves to, following one alias *)
